@@ -37,6 +37,28 @@ def make_cases(chk):
         c["kind"] = "pipeline"
         c["scaled"] = scale is not None
         cases.append(c)
+    # hand-built thin cascades (round 8, C06-c8): a decision d whose region is the flat/thin slab lo <= s.x <= hi, and below it a
+    # branch that is empty by a gap between tau and 1e-4 - far more than the LP tolerance, but close enough for a witness
+    # inherited "up to rounding" from the slab to be mistaken for a member
+    FRc = Fraction
+    for i, (width, gap, sgn) in enumerate([(FRc(0), FRc(1, 2**14), 1), (FRc(0), FRc(1, 2**15), -1), (FRc(1, 2**16), FRc(1, 2**14), 1),
+                                           (FRc(0), FRc(3, 2**16), 1), (FRc(1, 2**17), FRc(1, 2**15), -1)][:5 if quick else 5]):
+        n = 2
+        A = lambda rows, b: aff_json(rows, b, n)
+        term = lambda: A(gen.mat(rng, 1, n), gen.vec(rng, 1))
+        s_ = FRc(sgn)
+        ts = [{"op": "from_aff", "name": "t", "k": 2, "aff": A([[-s_, 0]], [0])},                     # 0: s.x >= 0
+              {"op": "add_child", "tree": "t", "parent": 0, "label": 1, "aff": A([[s_, 0]], [width])},   # 1: s.x <= width
+              {"op": "add_child", "tree": "t", "parent": 0, "label": 0, "aff": term()},
+              {"op": "add_child", "tree": "t", "parent": 1, "label": 1, "aff": A([[s_, 0]], [-gap])},    # 3: s.x <= -gap: empty by gap
+              {"op": "add_child", "tree": "t", "parent": 1, "label": 0, "aff": term()},
+              {"op": "add_child", "tree": "t", "parent": 3, "label": 1, "aff": term()},
+              {"op": "add_child", "tree": "t", "parent": 3, "label": 0, "aff": term()}]
+        k = len(ts)
+        steps = ts + [{"op": "export", "tree": "t"}, {"op": "elim", "tree": "t"}, {"op": "export", "tree": "t"},
+                      {"op": "elim", "tree": "t"}, {"op": "export", "tree": "t"}]
+        cases.append({"id": "thin%d" % i, "steps": steps, "kind": "pipeline", "scaled": False, "final": (k, k + 2, k + 4, k + 3),
+                      "meta": {"word": ["hand-built thin cascade", "elim", "elim"], "in_dim": n, "width": float(width), "gap": float(gap)}})
     # distilled ReLU-type networks for the region-count clause
     for i in range(40 if quick else 2000):
         n = rng.choice([1, 2, 2, 3])
